@@ -13,7 +13,7 @@ use cosmwasm_std::{
     coin, from_json, Addr, Coin, CosmosMsg, Decimal, DistributionMsg, Order, StakingMsg, Storage, Timestamp,
     Uint128, Validator,
 };
-use cw_multi_test::{App, BankSudo, Executor, StakingInfo, StakingSudo, SudoMsg};
+use cw_multi_test::{App, BankSudo, Executor, Module, StakingInfo, StakingSudo, SudoMsg};
 use serde::Deserialize;
 use std::collections::BTreeMap;
 
@@ -356,6 +356,15 @@ fn exec_op(cx: &mut Ctx, t: &[&str]) -> String {
             let impossible: CosmosMsg = cosmwasm_std::BankMsg::Send { to_address: sender.clone(), amount: vec![coin(1_000_000_000_000_000_000_000_000_000u128, cx.denom.clone())] }.into();
             res(cx.app.execute_multi(Addr::unchecked(sender), vec![first, impossible]))
         }
+        ["slash-direct", v, p] => {
+            // the staking module's sudo entry point called directly on the live storage (as an init / setup function may do):
+            // there is no write cache around it, so "rejected without effect" has to be the module's own doing
+            let Some(p) = num(p) else { return "bad-op".into() };
+            let va = cx.val(v);
+            let block = cx.app.block_info();
+            let msg = StakingSudo::Slash { validator: va, percentage: Decimal::new(Uint128::new(p)) };
+            res(cx.app.init_modules(|router, api, storage| router.staking.sudo(api, storage, router, &block, msg)))
+        }
         ["slash", v, p] => {
             let Some(p) = num(p) else { return "bad-op".into() };
             let va = cx.val(v);
@@ -659,7 +668,8 @@ impl<'a> Gen<'a> {
         } else if k < 80 {
             let v = self.rng.below(self.nvals as u64) as usize;
             let p = self.pct();
-            self.op(format!("slash v{} {}", v + 1, p));
+            let how = if self.rng.chance(1, 5) { "slash-direct" } else { "slash" };
+            self.op(format!("{} v{} {}", how, v + 1, p));
         } else {
             let s = self.secs();
             self.advance(s);
@@ -688,8 +698,8 @@ impl<'a> Gen<'a> {
                 let have = self.del.get(&(d, v)).copied().unwrap_or(0);
                 format!("redeleg {} v{} v{} {}", D[d], v + 1, (v + 1) % self.nvals + 1, have + self.rng.range(1, 3))
             }
-            11 => format!("slash v{} {}", v + 1, self.rng.pick(&[E + 1, 2 * E, E + E / 2])),
-            12 => format!("slash v9 {}", self.rng.pick(&[0, E / 2, E])),
+            11 => format!("{} v{} {}", self.rng.pick(&["slash", "slash", "slash-direct"]), v + 1, self.rng.pick(&[E + 1, 2 * E, E + E / 2, E + E / 200])),
+            12 => format!("{} v9 {}", self.rng.pick(&["slash", "slash", "slash-direct"]), self.rng.pick(&[0, E / 2, E])),
             13 => self.rng.pick(&[format!("setwd {} bad", D[d]), format!("setwd {} pool", D[d]), format!("withdraw {} v9", D[d])]),
             14 => self.rng.pick(&[
                 format!("deleg w1 v{} {}", v + 1, n),
